@@ -110,7 +110,7 @@ func c19Transparent(c *Check, P, name string, m *MW) {
 	for i, r := range Returns(I) {
 		k := fmt.Sprintf("%s return#%d", name, i)
 		c.Report(Dominates(I, hc, r), P+".O1", "HANDLER-ALWAYS", I, r.Pos(), k, "every return path has called the handler")
-		outs := Origins(r.Results[0])
+		outs := RetOrigins(r, 0)
 		okO := len(outs) > 0
 		for _, o := range outs {
 			if !hOut(o) {
@@ -118,7 +118,7 @@ func c19Transparent(c *Check, P, name string, m *MW) {
 			}
 		}
 		c.Report(okO, P+".O1", "OUTPUTS-UNCHANGED", I, r.Pos(), k, "the returned messages are the handler's outputs")
-		for _, e := range Origins(r.Results[1]) {
+		for _, e := range RetOrigins(r, 1) {
 			switch {
 			case hErr(e):
 				c.Report(true, P+".O1", "ERROR-UNCHANGED", I, r.Pos(), k, "the returned error is the handler's error")
